@@ -41,6 +41,12 @@ def run(tier, seed, replay_rows=None):
                   trace_file="c15jit.ndjson", var="l", key_of=lambda r: "jitter-inheritance-differs@" + r["mode"],
                   describe=lambda r: json.dumps(r)[:900], workers=2)
     if replay_rows is None:
+        # "the limits mapped one-to-one onto the run options": the two failure tolerances of the limits section, written or
+        # omitted, seen through the verdict of a real `run file <path>` (rows judged by Verdict!Failed)
+        vlib.flow(ck, mcs=[], sub="c15limits", trace_module="Trace_Verdict", trace_cfg="Trace_Verdict.cfg",
+                  trace_file="c15limits.ndjson", var="l", key_of=lambda r: "limits-not-mapped-onto-the-run-options",
+                  describe=lambda r: json.dumps(r)[:600], workers=2)
+    if replay_rows is None:
         # run-time clauses: stages strictly sequential, parameters in the environment while triggering, none left
         runtraces.check(ck, "C15", only="file")
     return ck.finish()
